@@ -732,6 +732,10 @@ func (w *World) mayAliasAtSomeCall(f *ssa.Function, d, x int, depth int) bool {
 					(b.Root.Kind == RAlloc || b.Root.Kind == RFresh) && (a.Root.Kind == RGlobal || a.Root.Kind == RGlobalObj):
 					// a local is not a package-level object
 				case a.Root.Kind == RNil || b.Root.Kind == RNil:
+				case (a.Root.Kind == RParam && (b.Root.Kind == RGlobal || b.Root.Kind == RGlobalObj) || b.Root.Kind == RParam && (a.Root.Kind == RGlobal || a.Root.Kind == RGlobalObj)) && a.Field != b.Field:
+					// a field of a caller-supplied value and a whole package-level object (or the other way
+					// round) are different locations: &d.Coeff is inside d, bigTen and the power table are not
+					// fields of a Decimal
 				default:
 					return true
 				}
